@@ -91,3 +91,14 @@ Proof.
     rewrite H1. destruct (yield_one_spec c b s c1 HI Hs H1) as ((I1 & A1 & R1 & S1) & _).
     apply IH; [exact I1|]. intros x Hx. rewrite S1, A1. apply Hl. right. exact Hx.
 Qed.
+
+(* whatever an abandoned generator did, a later complete get_references yields exactly the references the block had *)
+Theorem abandoned_then_complete l c b c' :
+  Inv c -> (forall s, In s l -> In s (map fst (stab c))) ->
+  get_references_abandoned c b l = Some c' ->
+  forall x, In x (fst (get_references c' b)) <-> In x (map fst (stab c)) /\ fst (abs c x) = Some b.
+Proof.
+  intros HI Hl H x. destruct (get_references_abandoned_spec l c b c' HI Hl H) as ((I' & A' & _ & S') & _).
+  pose proof (get_references_spec c' b I') as G. destruct (get_references c' b) as [l2 c2]. destruct G as (G & _).
+  cbn [fst]. rewrite G, S', A'. reflexivity.
+Qed.
